@@ -227,6 +227,37 @@ impl Stats {
     fn shape(&mut self, k: &str) { *self.shapes.entry(k.to_string()).or_insert(0) += 1; }
 }
 
+// ================================================================================================ structured assertion values
+/// Classes of asserted values that make coefficients of the assertion value polynomial vanish (random values do so with
+/// probability 1/|F|): 0 values summing to zero (constant coefficient 0), 1 all zero, 2 all equal (constant polynomial),
+/// 3 a single non-zero value, 4 alternating a/-a (only the middle coefficient), 5 top coefficient zero,
+/// 6 a monomial x^k with 0 < k < m-1 (both ends zero).  The trace is NOT changed: the evaluator is driven with assertions
+/// the trace violates, which the row-level comparison with the definition does not care about.
+const PATTERNS: [&str; 7] = ["sum-zero", "all-zero", "all-equal", "single-nonzero", "alternating", "top-coeff-zero", "monomial"];
+fn structured_vals<B: StarkField>(pattern: u64, m: usize, r: &mut Rng) -> Vec<B> {
+    let nz = |r: &mut Rng| loop { let v = rand_e::<B>(r); if v != B::ZERO { return v; } };
+    if m == 1 { return vec![if pattern == 1 || pattern == 0 { B::ZERO } else { nz(r) }]; }
+    let w = B::get_root_of_unity(m.ilog2());
+    match pattern {
+        0 => { let mut v: Vec<B> = (0..m).map(|_| nz(r)).collect(); let s = v[..m - 1].iter().fold(B::ZERO, |a, &x| a + x); v[m - 1] = -s; v }
+        1 => vec![B::ZERO; m],
+        2 => vec![nz(r); m],
+        3 => { let mut v = vec![B::ZERO; m]; v[r.below(m as u64) as usize] = nz(r); v }
+        4 => { let a = nz(r); (0..m).map(|i| if i % 2 == 0 { a } else { -a }).collect() }
+        5 => { // c_{m-1} = (1/m) sum_i v_i w^(-i(m-1)) = (1/m) sum_i v_i w^i
+            let mut v: Vec<B> = (0..m).map(|_| nz(r)).collect();
+            let s = (1..m).fold(B::ZERO, |a, i| a + v[i] * w.exp((i as u64).into()));
+            v[0] = -s; v }
+        _ => { let k = if m > 2 { 1 + r.below((m - 2) as u64) } else { 1 }; let a = nz(r); (0..m).map(|i| a * w.exp(((i as u64) * k).into())).collect() }
+    }
+}
+fn structured_avals<B: StarkField>(spec: &Spec, pattern: u64, r: &mut Rng) -> Vec<Vec<B>> {
+    spec.assertions.iter().map(|a| match a {
+        AKind::Sequence { stride, .. } => structured_vals::<B>(pattern, spec.n() / stride, r),
+        _ => structured_vals::<B>(pattern, 1, r),
+    }).collect()
+}
+
 // ================================================================================================ spec sampler
 /// Shapes named in the property's quantifier: several periodic columns of different cycle lengths (2 .. n), sequence
 /// assertions with fewer and with at least 64 values, non-zero first steps, several constraints under one divisor,
@@ -312,16 +343,20 @@ fn note_shapes(st: &mut Stats, spec: &Spec, blowup: usize, ce_blowup: usize, ext
 
 // ================================================================================================ (a) + (b): evaluator driven directly
 #[allow(clippy::too_many_arguments)]
-fn direct_case<B, E>(spec: &Spec, blowup: usize, ext: FieldExtension, field: &str, r: &mut Rng, st: &mut Stats)
+fn direct_case<B, E>(spec: &Spec, blowup: usize, ext: FieldExtension, field: &str, structured: Option<u64>, r: &mut Rng, st: &mut Stats)
 where
     B: StarkField + ExtensibleField<2> + ExtensibleField<3> + 'static,
     E: FieldElement<BaseField = B>,
 {
-    let desc = describe(spec, blowup, ext, field);
+    let mut desc = describe(spec, blowup, ext, field);
     let n = spec.n();
     let cols = gen_main::<B>(spec);
-    let avals = assertion_values(spec, &cols);
+    let mut avals = assertion_values(spec, &cols);
     if !is_valid(spec, &cols, &avals) { fail("generator-produced-invalid-trace", &desc, "valid", "invalid"); st.fails += 1; return; }
+    if let Some(p) = structured {
+        avals = structured_avals::<B>(spec, p, r);
+        desc.push_str(&format!(" assertion-values={}", PATTERNS[p as usize]));
+    }
     let ftrace = FamTrace::new(spec, cols.clone());
     let info: TraceInfo = ftrace.info().clone();
     let opts = ProofOptions::new(4, blowup, 0, ext, 2, 1);
@@ -332,6 +367,12 @@ where
     let ce_blowup = air.ce_blowup_factor();
     let ncols = air.context().num_constraint_composition_columns();
     note_shapes(st, spec, blowup, ce_blowup, ext, field, ncols);
+    if let Some(p) = structured {
+        for a in &spec.assertions {
+            let cls = match a { AKind::Sequence { stride, .. } => { let m = n / stride; if m == 1 { "single" } else if m < 63 { "small-poly" } else { "large-poly" } } _ => "single" };
+            st.shape(&format!("values:{}:{}", PATTERNS[p as usize], cls));
+        }
+    }
     let domain = StarkDomain::new(&air);
     let main = ColMatrix::new(cols.clone());
     let (mut trace_lde, _polys): (DefaultTraceLde<E, ToyHasher<B>>, TracePolyTable<E>) = DefaultTraceLde::new(&info, &main, &domain);
@@ -383,6 +424,8 @@ where
         let _ = (&p.acur, &p.anxt);
     }
     // (b) interpolate + split into columns + evaluate_at + recombine, against the definition at random z
+    // (not with structured assertion values: the trace violates them, the quotient is not a polynomial)
+    if structured.is_some() { return; }
     let cp = match catch(AssertUnwindSafe(|| CompositionPoly::new(CompositionPolyTrace::new(evals.clone()), &domain, ncols))) {
         Ok(c) => c,
         Err(m) => { fail("composition-poly-new-panicked", &desc, "columns", &m); st.fails += 1; return; }
@@ -564,9 +607,24 @@ fn falsify(seed: u64, budget: usize) {
         if variant == 1 { s.aux_width = 1; s.aux_rands = 1; }
         s.assertions = vec![AKind::Single { col: 0, step: 0 }];
         if (d + (variant >= 2) as u32) as usize > blowup { continue; }
-        if variant % 2 == 0 { direct_case::<f64::BaseElement, f64::BaseElement>(&s, blowup, FieldExtension::None, "f64", &mut r, &mut st); }
+        if variant % 2 == 0 { direct_case::<f64::BaseElement, f64::BaseElement>(&s, blowup, FieldExtension::None, "f64", None, &mut r, &mut st); }
         else { proof_case::<f64::BaseElement, QuadExtension<f64::BaseElement>>(&s, blowup, FieldExtension::Quadratic, "f64", &mut r, &mut st); }
     } } } }
+    // boundary stream: structured assertion values for every representation: sequences of 2, 4, 8, 32 (small polynomial) and
+    // 64, 128 (large polynomial) values, first step zero and non-zero, every pattern; a periodic and a single assertion ride along
+    for &m in &[2usize, 4, 8, 32, 64, 128] { for first_nz in [false, true] { for p in 0..PATTERNS.len() as u64 {
+        let stride = if m == 2 { 4 } else { 2 };
+        let n = m * stride;
+        let mut s = Spec::simple(3, n.ilog2(), 1, 7000 + (m as u64) * 100 + p * 2 + first_nz as u64);
+        s.degs = vec![2, 1, 1];
+        s.hold = vec![false, true, false];
+        let first = if first_nz { stride - 1 } else { 0 };
+        s.assertions = vec![AKind::Sequence { col: 0, first, stride }, AKind::Periodic { col: 1, first, stride },
+                            AKind::Single { col: 2, step: if first_nz { n - 1 } else { 0 } }];
+        if p % 2 == 0 { direct_case::<f64::BaseElement, f64::BaseElement>(&s, 4, FieldExtension::None, "f64", Some(p), &mut r, &mut st); }
+        else { direct_case::<f64::BaseElement, QuadExtension<f64::BaseElement>>(&s, 4, FieldExtension::Quadratic, "f64", Some(p), &mut r, &mut st); }
+        if m == 8 { direct_case::<f128::BaseElement, f128::BaseElement>(&s, 2, FieldExtension::None, "f128", Some(p), &mut r, &mut st); }
+    } } }
     let mut i = 0usize;
     while (st.evals as usize) < budget && i < budget * 4 + 64 {
         i += 1;
@@ -575,9 +633,11 @@ fn falsify(seed: u64, budget: usize) {
         let spec = c17_spec(&mut r, blowup, big);
         let through_proof = !big && i % 3 == 0;
         let sel = r.below(5);
+        // every fifth directly driven case uses structured assertion values on a random member of the family
+        let structured = if !through_proof && i % 5 == 1 { Some(r.below(PATTERNS.len() as u64)) } else { None };
         macro_rules! go { ($B:ty, $E:ty, $ext:expr, $name:expr) => {{
             if through_proof { proof_case::<$B, $E>(&spec, blowup, $ext, $name, &mut r, &mut st) }
-            else { direct_case::<$B, $E>(&spec, blowup, $ext, $name, &mut r, &mut st) }
+            else { direct_case::<$B, $E>(&spec, blowup, $ext, $name, structured, &mut r, &mut st) }
         }}; }
         match sel {
             0 => go!(f64::BaseElement, f64::BaseElement, FieldExtension::None, "f64"),
@@ -609,10 +669,10 @@ fn push_groups(out: &mut Vec<String>, groups: &[winter_air::BoundaryConstraintGr
     }
 }
 
-fn corr_eval(spec: &Spec, blowup: usize, r: &mut Rng) -> Option<String> {
+fn corr_eval(spec: &Spec, blowup: usize, structured: Option<u64>, r: &mut Rng) -> Option<String> {
     let n = spec.n();
     let cols = gen_main::<B64>(spec);
-    let avals = assertion_values(spec, &cols);
+    let avals = match structured { Some(p) => structured_avals::<B64>(spec, p, r), None => assertion_values(spec, &cols) };
     let ftrace = FamTrace::new(spec, cols.clone());
     let info = ftrace.info().clone();
     let opts = ProofOptions::new(4, blowup, 0, FieldExtension::None, 2, 1);
@@ -745,7 +805,14 @@ fn corr(seed: u64, count: usize) {
                    AKind::Periodic { col, first, stride } => { let s = (*stride).min(n); AKind::Periodic { col: *col, first: first % s, stride: s } }
                    AKind::Sequence { col, first, stride } => { let s = (*stride).min(n); AKind::Sequence { col: *col, first: first % s, stride: s } }
                }).collect(); }
-        if let Some(l) = corr_eval(&spec, blowup, &mut r) { lines.push(l); made += 1; }
+        // two of three whole-evaluator cases use structured assertion values (patterns in turn; a sequence is forced in)
+        let structured = if made % 3 != 0 { Some((made as u64) % PATTERNS.len() as u64) } else { None };
+        if structured.is_some() && !spec.assertions.iter().any(|a| matches!(a, AKind::Sequence { .. })) {
+            let n = spec.n();
+            let stride = if n >= 16 { n / 8 } else { 2 };
+            spec.assertions[0] = AKind::Sequence { col: assertion_steps(&spec.assertions[0], n).0, first: (made % 2) * (stride - 1), stride };
+        }
+        if let Some(l) = corr_eval(&spec, blowup, structured, &mut r) { lines.push(l); made += 1; }
     }
     for k in 0..count { lines.push(corr_split(&mut r, k)); }
     for _ in 0..count {
